@@ -325,3 +325,13 @@ Example solve_lu_complete_nonvacuous : (* the identity is its own left inverse *
   forall i j, (i < 3)%coq_nat -> (j < 3)%coq_nat ->
     @mprod ratArith 3 (fun i j => if Nat.eqb i j then 1 else 0 : rat) (fun i j => if Nat.eqb i j then 1 else 0 : rat) i j = @delta ratArith i j.
 Proof. intros [|[|[|i]]] [|[|[|j]]] Hi Hj; try (vm_compute; reflexivity); exfalso; move: Hi Hj => /ltP Hi /ltP Hj; discriminate. Qed.
+
+(* ---- tie to the source by proof (package r2c): the functions regenerated from /repo/src on this run by the Rust-subset ->
+   Gallina translator (driver/rust2coq.py -> gen/Src*.v) are equal, for all arguments, to the hand-written model functions
+   the theorems above are about (Proofs/SrcEq*.v).  A change of a loop bound, index, operator or statement order in the
+   source breaks the corresponding src_<function> lemma and with it this obligation. *)
+From OV Require Proofs.SrcEqSolve.
+Theorem model_is_source_C02_Solve : forall A : Arith, @SrcEqSolve.model_is_source_Solve A.
+Proof. intros A. exact SrcEqSolve.model_is_source_Solve_lemma. Qed.
+Check model_is_source_C02_Solve : forall A : Arith, @SrcEqSolve.model_is_source_Solve A.
+Print Assumptions model_is_source_C02_Solve.
